@@ -215,8 +215,10 @@ theorem C01_recv_runs_only_allowed {c : Conf} (h : Reach C O st0 script picks c)
 /-- **ready is sound**: if success is reported although neither the caller nor any feature's
 own mask supplied the ready bit — i.e. the library itself decided that negotiation is
 complete — then the final state is `stb ||| Ready` for the state `stb` in which that decision
-was taken, and no mandatory, negotiable feature of the last features list (as cached: configured
-and eligible when the list was read) whose prerequisites hold in `stb` is left un-negotiated -/
+was taken, and no mandatory, negotiable feature of the last features list whose prerequisites
+hold in `stb` is left un-negotiated: neither one of the cached ones (configured, eligible when
+the list was read) nor one of the skipped ones (configured, not eligible when the list was read
+but possibly eligible by now) -/
 theorem C01_ready_sound {c : Conf} (h : Reach C O st0 script picks c) (hd : c.pc = .done)
     (h0 : has st0 bReady = false) (hf : ¬ FeatReady c.tr) :
     has c.st bReady = true ∧ ∃ stb, c.st = stb ||| bReady ∧ NoMandLeft c stb := by
@@ -226,39 +228,6 @@ theorem C01_ready_sound {c : Conf} (h : Reach C O st0 script picks c) (hd : c.pc
   · rw [h0] at h1; cases h1
   · exact absurd h1 hf
   · exact h1
-
-/-- The stronger reading of "no eligible mandatory feature of the last advertisement left":
-*every* configured, negotiable feature that the peer advertised as mandatory and whose masks
-hold at the end (whether or not they held when the list was read) has been negotiated. -/
-def StrongReadySound : Prop :=
-  ∀ (C : List Feature) (O : Oracle) (st0 : St) (script : List Peer) (picks : List FName) (c : Conf),
-    Reach C O st0 script picks c → c.pc = .done → has st0 bReady = false → featReadyB c.tr = false →
-    ∀ f ∈ C, (∃ items, Peer.adv items ∈ script ∧ AdvItem.feat f.name true ∈ items) →
-      f.negotiable = true → eligible (c.st &&& ~~~bReady) f = true → c.negd.contains f.name.ns = true
-
-def fGive : Feature := ⟨0, ⟨2, 1⟩, 0, 0, true⟩
-def fNeed : Feature := ⟨1, ⟨3, 1⟩, bAuthn, 0, true⟩
-
-/-- the voluntary feature sets `Authn` without a restart -/
-def giveO : Oracle :=
-  { neg := fun _ f _ => if f.id == 0 then ⟨bAuthn, false, false⟩ else ⟨0, false, false⟩
-    list := fun _ _ _ => ⟨false, false⟩, parseErr := fun _ _ _ => false,
-    fault := fun _ => false, cancel := fun _ => false }
-
-/-- **the stronger reading fails** (known finding `ready-sound|mandatory-eligible-after-list`,
-replayed on the implementation by the corpus line
-`C01 run 0 0 2.1:0:0:1:0:0:0:2:0:0;3.1:2:0:1:1:0:0:0:0:0 H1;A2.1.0,3.1.1 2.1 -`): the mandatory
-feature needs `Authn`, which only the voluntary feature of the same list supplies; it is not
-cached when the list is read, so once the voluntary feature is done nothing is left to pick and
-the session is reported established -/
-theorem C01_ready_sound_strong_fails : ¬ StrongReadySound := by
-  intro h
-  have := h [fGive, fNeed] giveO 0 [.hdr true, .adv [.feat ⟨2, 1⟩ false, .feat ⟨3, 1⟩ true]] [⟨2, 1⟩]
-    _ ⟨30, rfl⟩ (by decide) (by decide) (by decide) fNeed (by decide)
-    ⟨_, List.mem_cons_of_mem _ List.mem_cons_self, List.mem_cons_of_mem _ List.mem_cons_self⟩
-    (by decide) (by decide)
-  revert this
-  decide
 
 /-! ### voluntary before mandatory -/
 
